@@ -205,3 +205,118 @@ known('K-C16-comments-not-walked', 'C16',
       {'text': '/*a*/ ; /*z*/', 'with_comments': True})
 rule('K-C16-comments-not-walked', r'^C16\|node-not-reached\|(AnyNode\.'
      r'comments|Comments\._children_list)\|')
+
+# ---------------------------------------------------------------- C03 (more)
+rule('K-C03-restricted-keyword-then-semicolon',
+     r'^C03\|tree-differs\|.*length N != N first=EmptyStatement/')
+
+# ---------------------------------------------------------------- C05
+known('K-C05-layout-after-header', 'C05',
+      'a comment or line break between the `)` of an if/for/while/with '
+      'header and a regex literal makes the slash a division',
+      'the header bookkeeping (token_stack) is advanced by comment and '
+      'line-terminator tokens as well, so `if (a) /*c*/ /re/` and '
+      '`if (a)\\n/re/` are rejected.', {'text': 'if ( a )\n/b/g'})
+rule('K-C05-layout-after-header',
+     r'^C05\|[^|]*\|before=\)-after-(if|for|while|with)\|')
+known('K-C05-incdec-before-regex', 'C05',
+      '`++`/`--` followed by a regex literal',
+      'PLUSPLUS/MINUSMINUS are in TOKENS_THAT_IMPLY_DIVISON for the postfix '
+      'case; as prefix operators (`++ /re/`) and after the mis-read '
+      '`a\\n++` (K-C04-postfix-after-newline) the regex is not recognised.',
+      {'text': 'a\n++ /b/g'})
+rule('K-C05-incdec-before-regex', r'^C05\|[^|]*\|before=(\+\+|--)\|')
+rule('K-C05-incdec-before-regex', r'^C05\|impl-rejects\|before=ID\|'
+     r'gap=LINE-COMMENT\|tail=div\|expected=div\|')
+known('K-C05-keyword-property', 'C05',
+      'a keyword used as property name is followed by a regex, not a '
+      'division', 'same root cause as K-C03-keyword-property-then-slash',
+      {'text': 'a . if / b'})
+rule('K-C05-keyword-property', r'^C05\|[^|]*\|before=PROPNAME\|')
+known('K-C05-after-closing-brace', 'C05',
+      'a regex after a closing brace is only recognised for a plain `/` '
+      'directly re-lexed by the parser',
+      'after `}` the slash is first lexed as division and re-lexed as a '
+      'regex from the parser error hook; this fails for regexes starting '
+      'with `=` (`{}/=/.c`: DIVEQUAL is not re-lexed), with comments or line '
+      'breaks in between in several arrangements, and after function '
+      'declarations (K-C03-funcdecl-then-expression).',
+      {'text': '{ } /=/.c'})
+rule('K-C05-after-closing-brace', r'^C05\|[^|]*\|before=\}-after-')
+known('K-C05-regex-after-inserted-semicolon', 'C05',
+      'regex literal at the start of a statement after an inserted '
+      'semicolon', 'same root cause as K-C04-regex-after-inserted-semicolon',
+      {'text': 'var a\n/b/g'})
+rule('K-C05-regex-after-inserted-semicolon',
+     r'^C05\|impl-rejects\|before=(ID|get)\|.*expected=regex')
+known('K-C05-restricted-keyword-then-semicolon', 'C05',
+      '`return \\n ;` yields an extra empty statement',
+      'same root cause as K-C03-restricted-keyword-then-semicolon',
+      {'text': 'return \n ;/b/g'})
+rule('K-C05-restricted-keyword-then-semicolon',
+     r'^C05\|tree-differs\|before=;\|')
+
+# ---------------------------------------------------------------- C13
+known('K-C13-number-dot', 'C13',
+      'integer literal followed by a property access prints as `1.p`',
+      'same root cause as K-C01-number-dot',
+      {'text': '1 . p ; /*c*/'})
+rule('K-C13-number-dot', r'^C13\|.*identifier-after-number')
+known('K-C13-comment-splits-restricted-production', 'C13',
+      'a printed comment is always followed by a line break, which splits '
+      'return/break/continue/throw from their operand',
+      'the LineComment/BlockComment definitions end with Newline, so '
+      '`return /*c*/ x` is printed as `return /*c*/\\nx`: a conforming '
+      'reader (and, since the ASI repair, this parser too) inserts a '
+      'semicolon after the keyword; `throw /*c*/\\nx` is a syntax error.',
+      {'text': 'return /*c*/ a ;'})
+rule('K-C13-comment-splits-restricted-production',
+     r'^C13\|(conforming-reader-reads-different-tree|'
+     r'impl-reads-different-tree)\|.*length N != N first=')
+rule('K-C13-comment-splits-restricted-production',
+     r'^C13\|conforming-reader-rejects-pretty-output\|(line terminator '
+     r'after throw|expected ;|expected while|unexpected reserved word|'
+     r'expected \(|expected function name)\|')
+rule('K-C13-comment-splits-restricted-production',
+     r'^C13\|impl-rejects-pretty-output\|Unexpected\|ref=(line terminator '
+     r'after throw|expected ;|expected while|unexpected reserved word|'
+     r'expected \(|expected function name|accept)\|')
+known('K-C13-comments-rehomed', 'C13',
+      'print + re-parse moves or loses comments attached to operator-'
+      'anchored and placeholder nodes',
+      'comments are attached to the node whose anchor token follows them '
+      '(the operator for binary / accessor / conditional / postfix / label '
+      'nodes, the `:` of a property, synthesised for-clause placeholders) '
+      'but are printed before the whole node, so after re-parsing they '
+      'belong to a different node or are dropped.',
+      {'text': 'a /*c*/ % b ;'})
+rule('K-C13-comments-rehomed',
+     r'^C13\|comments-not-preserved-by-print-and-reparse\|')
+
+# ---------------------------------------------------------------- C18
+known('K-C18-inline-data-url', 'C18',
+      'the inline source map is not a valid base64 data URL',
+      'write_sourcemap emits `data:application/json;base64;charset=utf8,'
+      '<b64>`; RFC 2397 and the WHATWG fetch standard require `;base64` to '
+      'be the last parameter before the comma, so standard decoders (urllib, '
+      'node fetch) return the base64 text instead of the JSON.')
+rule('K-C18-inline-data-url', r'^C18\|.*inline-url-not-a-base64-data-url')
+known('K-C18-relative-names', 'C18',
+      'with relative stream names the sourceMappingURL is not relative to '
+      'the output',
+      'normrelpath only rewrites when both names are absolute; for '
+      '`build/out.js` and `build/out.js.map` the URL written into '
+      '`build/out.js` is `build/out.js.map`, which resolves to '
+      '`build/build/out.js.map`.')
+rule('K-C18-relative-names',
+     r'^C18\|.*url-does-not-resolve-to-map\|names=rel-subdir')
+
+# ---------------------------------------------------------------- C19
+known('K-C19-python-literal-evaluation', 'C19',
+      'string escapes that Python and JavaScript read differently',
+      'LiteralEval evaluates JavaScript string text with Python literal '
+      'rules: `"\\/"` keeps the backslash, a surrogate pair written as two '
+      '\\u escapes stays two lone surrogates (values and keys alike).',
+      {'text': 'var x = "\\/";'})
+rule('K-C19-python-literal-evaluation',
+     r'^C19\|value-differs\|atom=(str|key)-escape-(solidus|surrogate-pair)')
